@@ -106,7 +106,12 @@ macro_rules! rdata_enum {
                     return Err(crate::SimpleDnsError::InsufficientData);
                 }
 
-                parse_rdata(&data[..*position + rdatalen], position, rdatatype)
+                let end = *position + rdatalen;
+                let rdata = parse_rdata(&data[..end], position, rdatatype)?;
+
+                // the next entry starts after the RDLENGTH bytes, not where the typed content stopped
+                *position = end;
+                Ok(rdata)
             }
 
             fn write_to<T: std::io::Write>(
